@@ -79,6 +79,7 @@ type Contract struct {
 	SpecOnly           bool
 	Unverified         []string        // interface contract: implementing types whose refinement is assumed, not proved
 	AtCall             []*AtCall       // assertions that must hold immediately before matching call sites
+	AtReturn           []*Clause       // assertions at every return over the locals in scope; ret0.. = returned values
 	IndexFn            bool            // spec-level slice indexing through an uninterpreted index function (E-matching aid)
 	Hide               map[string]bool // spec functions kept opaque (uninterpreted) in this function's VC
 	Using              []string        // axioms / proved lemmas assumed in this function's VC
@@ -293,6 +294,16 @@ func (ss *SpecSet) parseSpec(text, path, pkgPath string) error {
 			fn.Pkg = pkgPath
 			ss.Ghosts[fn.Name] = fn
 			cur = nil
+		case "at-return":
+			if cur == nil || !strings.HasPrefix(rest, "requires ") {
+				return fail(fmt.Errorf("at-return requires <expr>"))
+			}
+			body := strings.TrimSpace(strings.TrimPrefix(rest, "requires "))
+			e, err := parseExpr(body)
+			if err != nil {
+				return fail(err)
+			}
+			cur.AtReturn = append(cur.AtReturn, &Clause{Text: body, Expr: e, Line: ln + 1, Note: note})
 		case "at-call":
 			i := strings.Index(rest, " requires ")
 			if cur == nil || i < 0 {
